@@ -813,6 +813,20 @@ def _unroll_local_tables(fi: FuncInfo, body: List[ast.stmt]) -> Tuple[List[ast.s
                     out.extend(rep)
                     changed = True
                     continue
+        if isinstance(st, ast.If) and any(isinstance(x_, ast.For) and isinstance(x_.iter, (ast.Tuple, ast.List)) for x_ in ast.walk(st)):
+            # the same inside the branches of a conditional (on a copy: the function's own tree is never edited)
+            st2 = clone_ast(st)
+            ch_any = False
+            for fld_ in ("body", "orelse"):
+                nb_, ch_ = _unroll_local_tables(fi, getattr(st2, fld_))
+                setattr(st2, fld_, nb_)
+                ch_any = ch_any or ch_
+            if ch_any:
+                ast.fix_missing_locations(st2)
+                _fresh(st2)
+                out.append(st2)
+                changed = True
+                continue
         out.append(st)
     return out, changed
 
